@@ -1261,6 +1261,76 @@ theorem renaming_step (opq : V2.Opq) (hAtoi : ∀ x, opq.strconv_Atoi x = atoi x
         rw [refIndex_other c cs hd]
         simp [hstar, h1, hb, hb36, hb36p, Bool.beq_eq_decide_eq]
 
+/-! ### `RenamingSubject.ToSubject`, as translated (the `strings.Builder` is the text written so far) -/
+
+def convTok (tk : Str) : Str := if (refIndex tk).isSome then ['*'] else tk
+
+theorem toSubject_step (opq : V2.Opq) (hAtoi : ∀ x, opq.strconv_Atoi x = atoi x) (tokens : List Str)
+    (i : Int) (tk : Str) (acc : Str) :
+    V2.RenamingSubject_ToSubject.loop1 tokens opq i tk acc =
+      some (.next (acc ++ convTok tk ++ (if i ≠ len tokens - 1 then ['.'] else []))) := by
+  unfold V2.RenamingSubject_ToSubject.loop1 convTok
+  have hsl : strLen tk = (utf8Len tk : Int) := rfl
+  by_cases hlen : utf8Len tk < 2
+  · have h1 : decide (strLen tk > 1) = false := by rw [hsl]; simp; omega
+    rw [refIndex_short tk hlen]
+    by_cases hi : i = len tokens - 1 <;> simp [h1, hi]
+  · have h1 : decide (strLen tk > 1) = true := by rw [hsl]; simp; omega
+    cases tk with
+    | nil => simp [utf8Len] at hlen
+    | cons c cs =>
+      obtain ⟨b, hb, he⟩ := strByte_first_ascii c cs 36 (by decide)
+      have he' : (b == (36 : Int)) = decide (c.toNat = 36) := by simpa using he
+      by_cases hd : c = '$'
+      · subst hd
+        have hb36 : (b == (36 : Int)) = true := by rw [he']; decide
+        have hsl1 := strSliceFrom_one '$' cs (by decide)
+        rw [refIndex_dollar cs hlen]
+        cases ha : atoi cs with
+        | none => by_cases hi : i = len tokens - 1 <;> simp [h1, hb, hb36, hsl1, hAtoi, ha, hi]
+        | some n => by_cases hi : i = len tokens - 1 <;> simp [h1, hb, hb36, hsl1, hAtoi, ha, hi]
+      · have hne : ¬ c.toNat = 36 := fun e => hd (char_eq_of_toNat (by simpa using e))
+        have hb36 : (b == (36 : Int)) = false := by rw [he']; simp [hne]
+        rw [refIndex_other c cs hd]
+        by_cases hi : i = len tokens - 1 <;> simp [h1, hb, hb36, hi]
+
+theorem toSubject_loop (opq : V2.Opq) (hAtoi : ∀ x, opq.strconv_Atoi x = atoi x) (tokens : List Str) :
+    ∀ (rest pre : List Str) (acc : Str), tokens = pre ++ rest →
+      forRangeFrom (ρ := Str) (V2.RenamingSubject_ToSubject.loop1 tokens opq) (pre.length : Int) rest acc =
+        some (.done (acc ++ join '.' (rest.map convTok))) := by
+  intro rest
+  induction rest with
+  | nil => intro pre acc _; simp [forRangeFrom, join]
+  | cons tk r ih =>
+    intro pre acc ht
+    have hlen : len tokens = (pre.length : Int) + 1 + (r.length : Int) := by
+      rw [ht]; simp [len]; omega
+    have ih' := ih (pre ++ [tk]) (acc ++ convTok tk ++ (if (pre.length : Int) ≠ len tokens - 1 then ['.'] else []))
+      (by rw [ht]; simp)
+    simp only [List.length_append, List.length_singleton, Int.natCast_add, Int.natCast_one] at ih'
+    simp only [forRangeFrom, toSubject_step opq hAtoi, Option.bind_some, ih']
+    cases r with
+    | nil =>
+      have : (pre.length : Int) = len tokens - 1 := by rw [hlen]; simp
+      simp [this, join]
+    | cons t2 r2 =>
+      have : ¬ ((pre.length : Int) = len tokens - 1) := by rw [hlen]; simp; omega
+      simp [this, join]
+
+/-- **`ToSubject` is the model's `renamingToSubject`** (given `strconv.Atoi`): a subject without `$` is returned
+as it is; otherwise every `$n` token becomes `*` and the tokens are joined by dots again -/
+theorem v2_toSubject (opq : V2.Opq) (hAtoi : ∀ x, opq.strconv_Atoi x = atoi x) (s : Str) :
+    V2.RenamingSubject_ToSubject s opq = some (renamingToSubject s) := by
+  unfold V2.RenamingSubject_ToSubject renamingToSubject
+  rw [contains_single]
+  cases h : s.any (· = '$')
+  · simp
+  · have hl := toSubject_loop opq hAtoi (splitOn '.' s) (splitOn '.' s) [] [] (by simp)
+    simp only [List.length_nil, Int.natCast_zero, List.nil_append] at hl
+    simp only [GoRt.split, forRange, hl, Bool.not_true, Bool.false_eq_true, if_false, Option.pure_def,
+      Option.bind_eq_bind, Option.bind_some]
+    rfl
+
 theorem renamingLoop_cons (fc : Int) (tk : Str) (rest : List Str) :
     renamingLoop fc (tk :: rest) =
       ((renamingLoop fc [tk]).1 ++ (renamingLoop fc rest).1, (renamingLoop fc [tk]).2 + (renamingLoop fc rest).2) := by
@@ -1429,7 +1499,7 @@ theorem keys_mapSet_perm (m : List (Str × Unit)) (seen : List Str) (sub : Str)
 theorem v2_imports_loop (cr : Crypto) (opq : V2.Opq)
     (hAtoi : ∀ x, opq.strconv_Atoi x = atoi x)
     (hAcct : ∀ x, opq.nkeys_IsValidPublicAccountKey x = validAcct x)
-    (hToSub : ∀ x, opq.RenamingSubject_ToSubject x = some (renamingToSubject x))
+    (hToSub : ∀ x, V2.RenamingSubject_ToSubject x opq = some (renamingToSubject x))
     (hDec : ∀ tok, opq.DecodeActivationClaims tok =
       some (match decodeTyped .activation cr tok with
             | .ok c => (some (V2.T_ActivationClaims.ofVal c.val), false)
@@ -1527,7 +1597,7 @@ ML1 over the list) up to order -/
 theorem v2_importsValidate (cr : Crypto) (opq : V2.Opq)
     (hAtoi : ∀ x, opq.strconv_Atoi x = atoi x)
     (hAcct : ∀ x, opq.nkeys_IsValidPublicAccountKey x = validAcct x)
-    (hToSub : ∀ x, opq.RenamingSubject_ToSubject x = some (renamingToSubject x))
+    (hToSub : ∀ x, V2.RenamingSubject_ToSubject x opq = some (renamingToSubject x))
     (hDec : ∀ tok, opq.DecodeActivationClaims tok =
       some (match decodeTyped .activation cr tok with
             | .ok c => (some (V2.T_ActivationClaims.ofVal c.val), false)
@@ -1778,7 +1848,7 @@ theorem v2_accountBodyValidate (env : VEnv) (cr : Crypto) (opq : V2.Opq)
     (hAcct : ∀ x, opq.nkeys_IsValidPublicAccountKey x = validAcct x)
     (hUser : ∀ x, opq.nkeys_IsValidPublicUserKey x = validUser x)
     (hCurve : ∀ x, opq.nkeys_IsValidPublicCurveKey x = validCurve x)
-    (hToSub : ∀ x, opq.RenamingSubject_ToSubject x = some (renamingToSubject x))
+    (hToSub : ∀ x, V2.RenamingSubject_ToSubject x opq = some (renamingToSubject x))
     (hDec : ∀ tok, opq.DecodeActivationClaims tok =
       some (match decodeTyped .activation cr tok with
             | .ok c => (some (V2.T_ActivationClaims.ofVal c.val), false)
@@ -1880,7 +1950,7 @@ theorem v2_accountClaimsValidate (env : VEnv) (cr : Crypto) (opq : V2.Opq)
     (hAcct : ∀ x, opq.nkeys_IsValidPublicAccountKey x = validAcct x)
     (hUser : ∀ x, opq.nkeys_IsValidPublicUserKey x = validUser x)
     (hCurve : ∀ x, opq.nkeys_IsValidPublicCurveKey x = validCurve x)
-    (hToSub : ∀ x, opq.RenamingSubject_ToSubject x = some (renamingToSubject x))
+    (hToSub : ∀ x, V2.RenamingSubject_ToSubject x opq = some (renamingToSubject x))
     (hDec : ∀ tok, opq.DecodeActivationClaims tok =
       some (match decodeTyped .activation cr tok with
             | .ok c => (some (V2.T_ActivationClaims.ofVal c.val), false)
@@ -2178,7 +2248,6 @@ structure OpqOk (env : VEnv) (cr : Crypto) (opq : V2.Opq) : Prop where
   op : ∀ x, opq.nkeys_IsValidPublicOperatorKey x = validOp x
   server : ∀ x, opq.nkeys_IsValidPublicServerKey x = validServer x
   curve : ∀ x, opq.nkeys_IsValidPublicCurveKey x = validCurve x
-  toSub : ∀ x, opq.RenamingSubject_ToSubject x = some (renamingToSubject x)
   dec : ∀ tok, opq.DecodeActivationClaims tok =
       some (match decodeTyped .activation cr tok with
             | .ok c => (some (V2.T_ActivationClaims.ofVal c.val), false)
@@ -2205,7 +2274,7 @@ never panics and its issues are a permutation of the model's -/
 theorem gen_account (env : VEnv) (cr : Crypto) (opq : V2.Opq) (ok : OpqOk env cr opq) (c : Jwt.Val) (now : Int) :
     ∃ a' l, V2.AccountClaims_Validate (V2.T_AccountClaims.ofVal c) vr0 now opq = some (a', push vr0 l) ∧
       l.Perm (validateAccount env cr now c) :=
-  v2_accountClaimsValidate env cr opq (v2_infoValidate env opq ok.url) ok.atoi ok.acct ok.user ok.curve ok.toSub ok.dec
+  v2_accountClaimsValidate env cr opq (v2_infoValidate env opq ok.url) ok.atoi ok.acct ok.user ok.curve (v2_toSubject opq ok.atoi) ok.dec
     c vr0 now
 
 /-! ## C01 / C02: the decision logic of `Decode`, as translated
@@ -2478,7 +2547,7 @@ theorem gen_decode_authentic (opq : V2.Opq) (tok : Str) (c : V2.I_Claims)
 /-- non-vacuity: an environment in which the translated `Decode` accepts a token (so the hypothesis of
 `gen_decode_accepts` is satisfiable, and the conclusion's verification text is the `hd.p` one) -/
 def demoOpq : V2.Opq :=
-  { DecodeActivationClaims := fun _ => none, RenamingSubject_ToSubject := fun x => some x,
+  { DecodeActivationClaims := fun _ => none,
     json_UnmarshalHeader := fun _ _ => ({ f_Type := "JWT".toList, f_Algorithm := "ed25519-nkey".toList }, false),
     decodeString := fun _ => some ([], false),
     json_Unmarshalv1OperatorClaims := fun _ x => (x, true), json_UnmarshalOperatorClaims := fun _ x => (x, true),
